@@ -33,7 +33,7 @@ class FunctionGF(GF):
     def __init__(self, generator: Callable[[int], float], n: int = None):
         super().__init__()
         self._coefficients: Callable[[int], float] = generator
-        self._maxTerm = 300 if n is None else 300
+        self._maxTerm = 300 if n is None else n
 
     def getCoefficient(self, i: int) -> float:
         '''Return the i'th coefficient.
